@@ -4,7 +4,9 @@ configuration (writes the evidence file), the same analysis under two more
 build configurations (-tags gofuzz, GOARCH=386) whose verdicts must agree, and
 the checker self-test: every single-defect variant under mutants/<ID>/ and
 seeded/<ID>-*/ is applied to a scratch copy of /repo's current tree (under
-$TMPDIR, removed afterwards) and the rules must report it.
+$TMPDIR, removed afterwards) and the rules must report it; every
+behaviour-preserving refactor under benign/<ID>/ is applied the same way and
+must NOT be reported as a violation.
 Exit 1 + VIOLATION lines if any configuration reports a violation; exit 2 if
 the checker is broken (undecided, or a variant that applies and builds is not
 detected); exit 0 otherwise."""
@@ -77,6 +79,33 @@ if rc != 1:  # on a tree that already violates the property every variant is tri
         worst = 2
 else:
     print("selftest: not run (the tree violates the property)")
+# silence self-test: behaviour-preserving refactors must not be reported
+bt = {"applied": 0, "silent": 0, "undecided": 0, "skipped": 0, "false_alarms": []}
+if rc != 1 and os.path.isdir(f"{ROOT}/benign/{pid}"):
+    jf = tempfile.mktemp(prefix="verif-ben-", suffix=".json")
+    subprocess.run([sys.executable, f"{ROOT}/tools/benigntest.py", "-j", "8", "--json", jf, pid], env=env, stdout=subprocess.PIPE, stderr=subprocess.STDOUT, text=True)
+    try:
+        res = json.load(open(jf))
+    except Exception:
+        res = []
+    finally:
+        if os.path.exists(jf):
+            os.remove(jf)
+    for r in res:
+        if r["status"].startswith("SKIP"):
+            bt["skipped"] += 1
+            continue
+        bt["applied"] += 1
+        if r["status"] == "silent":
+            bt["silent"] += 1
+        elif r["status"] == "undecided":
+            bt["undecided"] += 1
+        else:
+            bt["false_alarms"].append(r["variant"])
+            print(f"BROKEN selftest: benign refactor {r['variant']} is reported as a violation: {r['info'][:200]}")
+    print(f"selftest: {bt['silent']}/{bt['applied']} behaviour-preserving refactors silent, {bt['undecided']} undecided, {bt['skipped']} skipped")
+    if bt["false_alarms"] and worst != 1:
+        worst = 2
 # amend the evidence file
 ef = f"{ROOT}/evidence/{pid}.json"
 try:
@@ -84,6 +113,7 @@ try:
     ev["tier"] = "thorough"
     ev["coverage"]["configs"] = configs
     ev["coverage"]["selftest"] = st
+    ev["coverage"]["silence_selftest"] = bt
     ev["wall_s"] = time.time() - t0
     json.dump(ev, open(ef, "w"), indent=1)
 except Exception as e:
